@@ -137,3 +137,32 @@ SPECIAL = [
     # unresolved columns of two statements with the same name
     "insert into w select k from s.a p join s.b q on p.x = q.x;\ninsert into s.d select k from s.c p join t.a q on p.x = q.x",
 ]
+
+
+RENAME_TEMPLATES = [
+    # the new name is already linked to the old one by table lineage (rebuild and swap)
+    "create table {b} as select k, x from {a};\nalter table {b} rename to {a}",
+    "insert into {b} select k from {a};\ninsert into {c} select k from {b};\nalter table {c} rename to {a}",
+    # the renamed table feeds itself
+    "insert into {a} select * from {a};\nalter table {a} rename to {b}",
+    "insert into {a} select k from {a} p join {c} q on p.k = q.k;\nalter table {a} rename to {b}",
+    # the renamed table was only read / only written so far
+    "select * from {a};\nalter table {a} rename to {b}",
+    "create table {a} (k int);\nalter table {a} rename to {b}",
+    "insert into {a} values (1);\nalter table {a} rename to {b}",
+    # ordinary: renamed target read later under its new name; rename onto a fresh name; rename of an intermediate table
+    "insert into {b} select k from {a};\nalter table {b} rename to {c};\ninsert into {d} select k from {c}",
+    "insert into {b} select k from {a};\ninsert into {c} select k from {b};\nalter table {b} rename to {d}",
+    "alter table {a} rename to {b};\ninsert into {c} select k from {b}",
+]
+
+
+def rename_scripts(r, n=None):
+    """scripts with ONE single-pair RENAME after other statements (the multi-pair form is K-C03-1)"""
+    out = []
+    for t in RENAME_TEMPLATES:
+        for _ in range(1 if n is None else max(1, n // len(RENAME_TEMPLATES))):
+            a, b, c, d = r.sample(["s.a", "s.b", "s.c", "s.d", "t.a", "w"], 4)
+            out.append({"sql": t.format(a=a, b=b, c=c, d=d), "dialect": "ansi", "silent": False, "metadata": None, "provider": "dummy",
+                        "config": {}, "origin": "rename-template"})
+    return out
